@@ -35,3 +35,8 @@ claimed["C04"] = dict(engine="engine-I", category="model_checking",
   text="codon level: every (reference codon in 64) x (query codon in 15^3, thorough 17^3) x strand x annotation format; layout level: 11 annotation layouts (forward/reverse/join/complement(join)/join(complement)/overlapping/unnamed GFF CDS ...) x every single and double substitution over ACGTRN- on an 18-base genome x every 1-2-base indel with every single substitution x --append-snps on/off; every mentioned position and every aa record is judged for soundness and completeness; all single substitutions replayed through the real binary",
   note="trusted: varModel in harness/ref_variants.go (NCBI table 1, IUPAC sets); the annotation renderers in harness/gen_anno.go; translation of codons containing '-'/'?' treated as undefined",
   design_ref="DESIGN.md 3 (C04)")
+claimed["C14"] = dict(engine="engine-I", category="model_checking",
+  technique="bounded-exhaustive differential between two front-ends of the real code (GenBank vs GFF3) over enumerated gene layouts",
+  text="every gene layout within the bounds (coding length 6/9, codon_start 1-3, offsets 1-3, both strands, unsplit or split at every base with an intron of -2..3 bases incl. slippage-style overlaps, both GenBank spellings of reverse joins, a second gene downstream, ORF1a/ORF1ab-style pairs, nested in-frame pairs; GFF rows grouped or coordinate-sorted) rendered in both formats and run through `variants` and `sam variants` on every single substitution, deletions and an insertion; per-sequence record multisets must be equal; a slice is bound to the real binary",
+  note="trusted: the two renderers in harness/gen_anno.go express the same gene (GFF3 phases per specification); genomes are solved so each gene is sense codons + stop; both formats rejecting a layout is not a difference",
+  design_ref="DESIGN.md 3 (C14)")
